@@ -57,9 +57,9 @@ def g_script(case):
 
 
 def g_cfg(case):
-    # EQ_MODEL_FRESH_QUEUES=1: compare with the model of the candidate repair (fresh queues per worker) - used to
-    # validate notes/F08_candidate_fix.patch on a scratch tree; the default is the code as it is
-    fresh = os.environ.get("EQ_MODEL_FRESH_QUEUES") == "1"
+    # the code as it is since the repair of F08 (/repo 1ba89d0): every worker gets fresh queues.
+    # EQ_MODEL_FRESH_QUEUES=0 compares with the legacy model (queues shared by successive workers) instead.
+    fresh = os.environ.get("EQ_MODEL_FRESH_QUEUES", "1") != "0"
     return "(Cfg %s %s %s %s)" % (gnat(case["rate"]), gnat(case["timeout"]), gbool(case["keep"]), gbool(fresh))
 
 
